@@ -70,6 +70,10 @@ type ClientCfg struct {
 	TimeoutMs     int         `json:"timeout_ms"`
 	Devices       []DeviceCfg `json:"devices"`
 	Debug         bool        `json:"debug,omitempty"` // debug=true: the library prints hex dumps (stdout is muted)
+	// TimeoutNs, when non-zero, is the timeout in nanoseconds (degenerate values: 1, 7, negative); ZeroTimeout asks for a
+	// timeout of exactly 0. A client may be built with any time.Duration.
+	TimeoutNs   int64 `json:"timeout_ns,omitempty"`
+	ZeroTimeout bool  `json:"zero_timeout,omitempty"`
 }
 
 func (d DeviceCfg) Device() uhppote.Device {
@@ -110,6 +114,12 @@ func (c ClientCfg) addrs() (types.BindAddr, types.BroadcastAddr, types.ListenAdd
 	timeout := time.Duration(c.TimeoutMs) * time.Millisecond
 	if timeout == 0 {
 		timeout = 500 * time.Millisecond
+	}
+	if c.TimeoutNs != 0 {
+		timeout = time.Duration(c.TimeoutNs)
+	}
+	if c.ZeroTimeout {
+		timeout = 0
 	}
 	return bind, bcast, listen, timeout
 }
